@@ -28,8 +28,11 @@ theorem C09_src_degreeCentrality (s : Store) :
       (let n := s.nodesVec.length
        if Src.C09.degreeCentralityTrivial n = true then .ok (s.nodesVec.foldl (fun l nd => ainsert l nd.name (1 : Rat)) [])
        else s.forAllNodes "degree_centrality: get_node_degree().unwrap()" fun name =>
-         (s.getNodeDegree name).map fun d => Src.C09.degreeCentralityValue d (Src.C09.degreeCentralityScale n)) := by
+         (s.getNodeDegree name).map fun (d : Nat) => Src.C09.degreeCentralityValue d (Src.C09.degreeCentralityScale n)) := by
   unfold Store.degreeCentrality
   simp only [C09_src_degreeCentralityValue, Src.C09.degreeCentralityTrivial, decide_eq_true_eq]
+  split
+  · rfl
+  · congr 1; funext name; cases s.getNodeDegree name <;> rfl
 
 end Graphrs
